@@ -34,14 +34,24 @@ EPS = Fraction(1, 10**6)
 
 
 class _Clock:
-    def __init__(self, loop):
+    """The `time` module as the middleware sees it: `monotonic()` is the loop's virtual time; `time()` is a wall clock
+    that can be stepped (NTP correction, operator setting the date): steps = [(virtual instant, seconds), ...]."""
+
+    def __init__(self, loop, steps=()):
         self.loop = loop
+        self.steps = list(steps or ())
 
     def monotonic(self):
         return self.loop.time()
 
     def time(self):
-        return self.loop.time()
+        t = self.loop.time()
+        return 1.7e9 + t + sum(d for at, d in self.steps if t >= at)
+
+    def __getattr__(self, name):
+        import time as _t
+
+        return getattr(_t, name)
 
 
 def _is_44(S: bytes, retry_after: int) -> bool:
@@ -61,6 +71,9 @@ def case_st():
                              min_size=1, max_size=200),
         "cleanup": st.sampled_from([True, True, True, False]),
         "vary_fp": st.booleans(),
+        # the wall clock is stepped at these virtual instants (the allowance is about elapsed time, not about the date)
+        "wall_steps": st.one_of(st.just([]), st.lists(st.tuples(st.sampled_from([0, 1, 2, 5, 30, 300]),
+                                                                  st.sampled_from([-86400, -3600, -5, 5, 3600, 86400])), max_size=3)),
     })
 
 
@@ -148,7 +161,7 @@ def simulate(case, only_addr=None):
 
     async def scenario(loop):
         old = mw.time
-        mw.time = _Clock(loop)
+        mw.time = _Clock(loop, case.get("wall_steps"))
         try:
             if case.get("via") == "toml":
                 rl = RateLimiter(_config_via_toml(case))
@@ -273,6 +286,23 @@ def run_case(case: dict):
 
 
 def served_case():
+    return st.one_of(_served_general(), _served_general(), _served_hammer())
+
+
+def _served_hammer():
+    """One or two addresses repeating the same few requests every quarter or half second (a client retrying after 44):
+    refusals and refills interleave closely."""
+    return st.fixed_dictionaries({
+        "capacity": st.integers(1, 2),
+        "rate": st.sampled_from(["1", "1", "0.5"]),
+        "events": st.lists(st.tuples(st.sampled_from([0.25, 0.25, 0.5, 0]), st.sampled_from(["a", "a", "b"]), st.just("stay"), st.just(False)),
+                           min_size=4, max_size=14),
+        "wiring": st.sampled_from(["chain", "chain", "bare", "pyopenssl"]),
+        "addrset": st.sampled_from([0, 0, 1, 2]),
+    })
+
+
+def _served_general():
     return st.fixed_dictionaries({
         "capacity": st.integers(1, 3),
         "rate": st.sampled_from(["0", "0.5", "1"]),
@@ -392,7 +422,7 @@ def run_served(case: dict):
                 if titan:
                     req = (f"titan://localhost/f{i};size=0;token={who}\r\n" if i % 3 == 0 else f"titan://localhost/f{i};size=1;token={who}\r\nX").encode()
                 else:
-                    req = f"gemini://localhost/{i}?{who}\r\n".encode()
+                    req = f"gemini://localhost/{i % 2}?{who}\r\n".encode()  # two URLs only: the allowance is per address, not per URL
                 if wiring == "pyopenssl":
                     # the same chain behind the real PyOpenSSL TLS layer (peers stay until they are answered)
                     from vlib import memnet, stacks
@@ -406,6 +436,7 @@ def run_served(case: dict):
                     continue
                 tr = FakeTransport(loop, peername=(ADDR[who], 40000 + i))
                 tr.attach(GeminiServerProtocol(handler, chain, up))
+                tr.t_arrival = loop.time()
                 tr.feed(req)
                 if beh == "gone-at-once":
                     tr.peer_disconnect(ConnectionResetError(104, "reset"))
@@ -435,6 +466,21 @@ def run_served(case: dict):
                     return viol("window-bound-exceeded-at-the-handler",
                                 f"address {who}: {j - i + 1} requests reached a handler within {float(ts[j] - ts[i])} s; capacity {cap}, "
                                 f"refill {rate}/s allow at most {float(cap + rate * (ts[j] - ts[i]))}", **info)
+    if case.get("wiring") != "pyopenssl":
+        # a lower bound of each address's bucket follows from the answers so far (a 20 took a token, a 44 took none, a
+        # peer that left without waiting is counted as having taken one) - a refusal while more than one whole token
+        # is certainly there is not the configured allowance
+        tokens, last = {}, {}
+        for tr, ev in zip(trs, case["events"]):
+            who, t, S = ev[1], Fraction(tr.t_arrival).limit_denominator(1000), tr.written()
+            tk = min(Fraction(cap), tokens.get(who, Fraction(cap)) + rate * (t - last.get(who, t)))
+            last[who] = t
+            if S.startswith(b"20 ") or ev[2] != "stay":
+                tk -= 1
+            elif S.startswith(b"44 ") and tk >= 1 + Fraction(1, 1000):
+                return viol("refused-with-allowance-left", f"address {who} at t={float(t)}: exact bucket holds {float(tk):.4f} tokens "
+                            f"(capacity {cap}, refill {rate}/s), request refused: {S[:40]!r}", **info)
+            tokens[who] = max(tk, Fraction(0))
     seen = set()
     stays = case.get("wiring") == "pyopenssl"
     for tr, ev in zip(trs, case["events"]):
